@@ -183,12 +183,14 @@ fn spawn_worker(cfg: &RunCfg, base: &str, w: u64, resume: Option<(u64, u64)>, ag
         let mut last = (u64::MAX, u64::MAX, u64::MAX);
         let mut since = Instant::now();
         let mut cpu_at_change = cpu_ticks(pid);
+        let mut prog: Option<Progress> = None;
         while !stop2.load(std::sync::atomic::Ordering::Relaxed) {
             std::thread::sleep(Duration::from_millis(100));
-            if !std::path::Path::new(&prog_path).exists() {
-                continue;
+            if prog.is_none() && std::path::Path::new(&prog_path).exists() {
+                prog = Some(Progress::open(&prog_path));
             }
-            let p = Progress::open(&prog_path).get();
+            let Some(pg) = prog.as_ref() else { continue };
+            let p = pg.get();
             if p != last {
                 last = p;
                 since = Instant::now();
@@ -342,7 +344,10 @@ pub fn run_workers(cfg: &RunCfg) -> (Agg, HashSet<u64>, HashSet<u64>, HashSet<u6
         }));
     }
     for h in handles {
-        let _ = h.join();
+        if h.join().is_err() {
+            eprintln!("harness error: a controller thread panicked; the run is incomplete");
+            std::process::exit(2);
+        }
     }
     let mut cases = HashSet::new();
     let mut scheds = HashSet::new();
